@@ -983,6 +983,13 @@ class Interp:
                 return [(False, st)]
             if a.name == "$OTHER" and b.name == "$OTHER":
                 return self.fork_bool(("eq", repr(a), repr(b)), st)
+            if a.name == "$OTHER" or b.name == "$OTHER":
+                # $OTHER stands for "some member the abstraction does not keep apart"; members the handler modules compare
+                # against literally are kept apart, so only a comparison with any other literal is undecided
+                lit = b if a.name == "$OTHER" else a
+                if lit.name in self.prog.compared_members(a.cls) or lit.name in ("NO_ERROR", "NULL_CHECKSUM"):
+                    return [(False, st)]
+                return self.fork_bool(("eq", *sorted((repr(a), repr(b)))), st)
             return [(a.name == b.name, st)]
         if a == b:
             return [(True, st)]
@@ -1084,6 +1091,12 @@ class Interp:
         node = self.prog.modules[module].globals_[name]
         if isinstance(node, ast.Constant):
             return node.value
+        if isinstance(node, (ast.Dict, ast.List, ast.Set, ast.Tuple)):
+            # a module-level container literal: its content is what the code sees (sharing between instances is a matter of the
+            # syntax-tree rules C11-R1d / C14-R6, the value domain has no aliasing for containers)
+            res = self.eval(node, Store(), Frame(None, module, None), [])
+            if len(res) == 1:
+                return res[0][0]
         if name.isupper() or name.startswith("_LOG") or "LOGGER" in name.upper():
             return Sym(("a", f"${module}.{name}"))
         if isinstance(node, (ast.Name, ast.Attribute)):
